@@ -381,6 +381,19 @@ func (s *Sim) raceFor(c *APICall, alt bool, arg int) (func(), string) {
 				p.Labels = map[string]string{"made-by": "someone-else"}
 				stCreate(st, KPVC, c.NS, p)
 			}, "race.exists"
+		case KSet:
+			// somebody creates the Advanced StatefulSet first
+			return func() {
+				if _, ok := st.tables[KSet][key(c.NS, c.Name)]; ok {
+					return
+				}
+				in := c.In.(*asv1.StatefulSet).DeepCopy()
+				in.ResourceVersion = ""
+				if alt {
+					in.Spec.Replicas = int32p(9)
+				}
+				stCreate(st, KSet, c.NS, in)
+			}, "race.exists"
 		case KRev:
 			// another revision object occupies the name: with equal data (alt) or
 			// with different data (a real hash collision)
